@@ -139,7 +139,7 @@ def kind_c(report, tier, seed):
                ("a(i) = b(a)", NameConflictError), ("b(i) = c(i) * (d(i) + b(j))", MutatingAssignmentError), ("a(i,j) = b(i) + c(j) * b()", InconsistentDimensionsError)]
     # systematically: put a tensor name into every index slot, re-use the target at every operand
     # position, change the arity of every later reference of a repeated tensor
-    bases = ["y(i) = B(i,j) * B(j,k) * x(k)", "y(i) = A(i,j) * x(j) + A(j,i) * z(j)", "a(i,j) = b(i) * c(j) + d(i,j) * b(j)", "o() = p(i) * q(i) * p(i)"]
+    bases = ["y(i) = B(i,j) * B(j,k) * x(k)", "y(i) = A(i,j) * x(j) + A(j,i) * z(j)", "a(i,j) = b(i) * c(j) + d(i,j) * b(j)", "o() = p(i) * q(i) * p(i)", "a(i) = s() * b(i) + s() * c(i)", "a(i,j) = t() + B(i,j) * t() + B(j,i)"]
     import re as _re
 
     for base in bases:
@@ -158,9 +158,12 @@ def kind_c(report, tier, seed):
                 tname = _re.match(r"\w+", lhs).group(0)
                 text = base[: m.start(1)] + tname + base[m.end(1):]
                 rejects.append((text, (MutatingAssignmentError, InconsistentDimensionsError, NameConflictError)))
-                if idxs:
+                if sum(1 for r in refs if r.group(1) == m.group(1) and r.start() > len(lhs)) > 1:
+                    # one reference of a repeated tensor gets a different number of indexes
                     text = base[: m.start(2)] + ",".join(idxs + ["w"]) + base[m.end(2):]
-                    if sum(1 for r in refs if r.group(1) == m.group(1) and r.start() > len(lhs)) > 1:
+                    rejects.append((text, (InconsistentDimensionsError,)))
+                    if idxs:
+                        text = base[: m.start(2)] + ",".join(idxs[:-1]) + base[m.end(2):]
                         rejects.append((text, (InconsistentDimensionsError,)))
     for text, exc in rejects:
         evals += 1
@@ -279,6 +282,9 @@ def kind_a(report):
     from tensora.format import _format as FF
 
     # --- make_expression: verified from its real AST with a loop invariant -----------------------
+    if not hasattr(EP, "make_expression"):
+        report.undecide("tensora.expression._parser.make_expression no longer exists (the fold contract cannot be stated; the bounded stand-in decides)")
+        return _format_post_init(report)
     tree = ast.parse(textwrap.dedent(inspect.getsource(EP.make_expression)))
     fn = tree.body[0]
     ok = (len(fn.body) == 3 and ast.unparse(fn.body[0]) == "value = first" and isinstance(fn.body[1], ast.For)
@@ -341,6 +347,18 @@ def kind_a(report):
                 got = EP.make_expression(b, [("-", c), ("+", d)])
                 report.violation(oid, dict(what=f"make_expression(b, [-c, +d]) = {got!r}, the left fold is Add(Subtract(b, c), d)", model=str(s.model())), got != sugar.Add(sugar.Subtract(b, c), d))
         report.functions.append("tensora.expression._parser.make_expression")
+    return _format_post_init(report)
+
+
+def _format_post_init(report):
+    import ast
+    import inspect
+    import textwrap
+
+    import z3
+
+    from tensora.format import _format as FF
+
     # --- Format.__post_init__ ----------------------------------------------------------------------
     tree = ast.parse(textwrap.dedent(inspect.getsource(FF.Format.__post_init__)))
     test = [n for n in ast.walk(tree) if isinstance(n, ast.If)]
@@ -371,10 +389,10 @@ def kind_a(report):
 def check(argv):
     tier, seed = env_tier_seed(argv)
     report = Report("C12", tier, seed, "other", f"./vt check C12 --tier {tier}")
-    kind_a(report)
+    report.guarded("fold / format obligations", kind_a, report)
     from contracts import deparse
 
-    deparse.run(report)
+    report.guarded("deparse contracts", deparse.run, report)
     kind_c(report, tier, seed)
     report.assumptions = ["parsita implements the combinators as documented (T4); CPython's recursion limit on deeply nested input is not modelled (F7b: ~3000 nested parentheses raise RecursionError)",
                           "the independent renderer of checks/c12.py is the 'conventional meaning': * over + and -, left associative, parentheses override"]
